@@ -53,6 +53,7 @@ func (c *Collection) String() string {
 }
 
 func (c *Collection) close() {
+	verifLock(&c.mutex, "coll.close")
 	c.mutex.Lock()
 	defer c.mutex.Unlock()
 	c._stopFeeds()
@@ -609,6 +610,7 @@ func (c *Collection) withNewCas(fn func(txn *sql.Tx, newCas CAS) (*event, error)
 	var e *event
 	err := c.bucket.inTransaction(func(txn *sql.Tx) error {
 		newCas := uint64(hlc.Now())
+		verifNote("txn.cas", c.bucket.name, newCas)
 		var err error
 		e, err = fn(txn, newCas)
 		if err != nil {
